@@ -1,4 +1,5 @@
 import FxVerif.Model.C16Sem
+import FxVerif.Gen.C16Tx
 /-!
 # C16 — the three ways a privileged message reaches the router, with who has to have signed for it
 
@@ -55,5 +56,138 @@ def proposalRun {σ : Type} (P : Program) (infos : List MsgInfo) (env : Env) (au
   if !basicOk infos env.cfg auth payloadOk msg then (.basic, (.err, s))
   else if (accAddress env.cfg auth).isNone || accAddress env.cfg auth != accAddress env.cfg env.gov then (.submit, (.err, s))
   else (.msgs, onBranch (routed P infos env auth W payloadOk T m msg) s)
+
+/-! ## `baseapp.runTx` as regenerated (round 4)
+
+`Gen/C16Tx.lean` holds the top-level statements of `runTx` of the pinned SDK in source order.  `runTxProg` interprets
+them on a small machine: the block's state `main`, the current branch `br` (`msCache`), the variable `err`.  An early
+`return … err` ends the run with `main` as it is at that point. -/
+
+/-- what a transaction brings, and the environment -/
+structure TxIn (σ : Type) where
+  envReject : Nat → Bool              -- the early returns decided by the environment (decoding, block gas, mempool)
+  basicOk : Bool                      -- `ValidateBasic` of every message
+  ante : σ → Res × σ                  -- the ante handler on the context it is given
+  msgs : List (σ → Res × σ)           -- the messages' handlers (through the router), each on the context it is given
+  postOk : Bool                       -- the post handler (touches nothing of `σ`)
+  unknown : σ → σ                     -- an unrecognised statement: anything can happen
+
+structure TxM (σ : Type) where
+  main : σ
+  br : σ
+  err : Bool
+
+/-- `runMsgs`: the messages in order on one context; `stop`: returns at the first error -/
+def loopMsgsG {σ : Type} (stop : Bool) : List (σ → Res × σ) → σ → Res → Res × σ
+  | [], X, e => (e, X)
+  | f :: fs, X, _ =>
+    match f X with
+    | (.ok, X') => loopMsgsG stop fs X' .ok
+    | (.err, X') => if stop then (.err, X') else loopMsgsG stop fs X' .err
+
+def anteStep {σ : Type} (inp : TxIn σ) : AStep → TxM σ → Except σ (TxM σ)
+  | .branch, M => .ok { M with br := M.main }
+  | .call onB, M =>
+    let r := inp.ante (if onB then M.br else M.main)
+    .ok (if onB then { M with br := r.2, err := r.1 == .err } else { M with main := r.2, err := r.1 == .err })
+  | .returnIfErr, M => if M.err then .error M.main else .ok M
+  | .write, M => .ok { M with main := M.br }
+  | .skip _, M => .ok M
+  | .other _, M => .ok { M with main := inp.unknown M.main }
+
+def anteRun {σ : Type} (inp : TxIn σ) : List AStep → TxM σ → Except σ (TxM σ)
+  | [], M => .ok M
+  | a :: as, M =>
+    match anteStep inp a M with
+    | .error s => .error s
+    | .ok M' => anteRun inp as M'
+
+def tStep {σ : Type} (stop : Bool) (inp : TxIn σ) : TStep → TxM σ → Except σ (TxM σ)
+  | .rejectIfEnv i _, M => if inp.envReject i then .error M.main else .ok M
+  | .validateBasic, M => if inp.basicOk then .ok M else .error M.main
+  | .ante steps, M => anteRun inp steps M
+  | .branchMsgs, M => .ok { M with br := M.main }
+  | .runMsgs onB, M =>
+    if M.err then .ok M else
+    let r := loopMsgsG stop inp.msgs (if onB then M.br else M.main) .ok
+    .ok (if onB then { M with br := r.2, err := r.1 == .err } else { M with main := r.2, err := r.1 == .err })
+  | .post onB, M => if inp.postOk then .ok M else .error (if onB then M.main else inp.unknown M.main)
+  | .writeIfOk, M => .ok (if M.err then M else { M with main := M.br })
+  | .writeAlways, M => .ok { M with main := M.br }
+  | .skip _, M => .ok M
+  | .other _, M => .ok { M with main := inp.unknown M.main }
+
+def runSteps {σ : Type} (stop : Bool) (inp : TxIn σ) : List TStep → TxM σ → Res × σ
+  | [], M => (if M.err then .err else .ok, M.main)
+  | t :: ts, M =>
+    match tStep stop inp t M with
+    | .error s => (.err, s)
+    | .ok M' => runSteps stop inp ts M'
+
+/-- one transaction through the regenerated `runTx` -/
+def runTxProg {σ : Type} (prog : List TStep) (stop : Bool) (inp : TxIn σ) (s : σ) : Res × σ :=
+  runSteps stop inp prog { main := s, br := s, err := false }
+
+/-- the regenerated pipeline -/
+def runTxGen {σ : Type} (inp : TxIn σ) (s : σ) : Res × σ :=
+  runTxProg FxVerif.Gen.C16Tx.runTxProg FxVerif.Gen.C16Tx.runMsgsStopsAtError inp s
+
+/-- what `runTx` is meant to compute, in closed form: `ValidateBasic`, then the ante handler on a branch written only
+when it succeeds, then the messages on a second branch written only when all of them (and the post handler) succeed -/
+def runTxSpec {σ : Type} (inp : TxIn σ) (s : σ) : Res × σ :=
+  if !inp.basicOk then (.err, s) else
+  match inp.ante s with
+  | (.err, _) => (.err, s)
+  | (.ok, s1) =>
+    match loopMsgsG true inp.msgs s1 .ok with
+    | (.ok, s2) => if inp.postOk then (.ok, s2) else (.err, s1)
+    | (.err, _) => (.err, s1)
+
+/-- the outcomes a transaction can have: nothing at all; or — only after `ValidateBasic` and the ante handler passed —
+exactly what the ante handler wrote (fee, sequence), or the closed form above -/
+def TxOutcome {σ : Type} (inp : TxIn σ) (s : σ) (r : Res × σ) : Prop :=
+  r = (.err, s) ∨ (inp.basicOk = true ∧ ∃ s1, inp.ante s = (.ok, s1) ∧ (r = (.err, s1) ∨ r = runTxSpec inp s))
+
+/-- the transaction `txRun` describes, as an input of the regenerated pipeline: the ante handler refuses unless the
+transaction is signed by the account the authority decodes to, and writes nothing the privileged handlers read -/
+def txRunIn {σ : Type} (P : Program) (infos : List MsgInfo) (env : Env) (auth : Str) (W : World σ) (payloadOk : Bool)
+    (T m msg : String) (signer : List Nat) : TxIn σ :=
+  { envReject := fun _ => false
+    basicOk := basicOk infos env.cfg auth payloadOk msg
+    ante := fun s => if accAddress env.cfg auth == some signer then (.ok, s) else (.err, s)
+    msgs := [routed P infos env auth W payloadOk T m msg]
+    postOk := true
+    unknown := id }
+
+/-! ## a whole block (round 4)
+
+`FinalizeBlock` runs the transactions of a block one after the other through `runTx` on the block's state: each sees the
+state its predecessors left (a failed transaction leaves what the ante handler did — fee, sequence — which is outside `σ`,
+the state privileged handlers write).  Tied by the `blk` lines: several signed transactions in one block through the
+real `FinalizeBlock` + `Commit`. -/
+
+/-- one transaction of a block: one privileged message (the registered type and method serving it, its message type),
+the environment of its guards, the rest of its handler, its authority, the verdict of the rest of `ValidateBasic`, and
+the account whose key signed the transaction -/
+structure BlockTx (σ : Type) where
+  env : Env
+  W : World σ
+  T : String
+  m : String
+  msg : String
+  auth : Str
+  payloadOk : Bool
+  signer : List Nat
+
+def BlockTx.run {σ : Type} (P : Program) (infos : List MsgInfo) (t : BlockTx σ) (s : σ) : TxStage × (Res × σ) :=
+  txRun P infos t.env t.auth t.W t.payloadOk t.T t.m t.msg t.signer s
+
+/-- the transactions of a block in order: the stage and result of each, and the state after the block -/
+def blockRun {σ : Type} (P : Program) (infos : List MsgInfo) : List (BlockTx σ) → σ → List (TxStage × Res) × σ
+  | [], s => ([], s)
+  | t :: ts, s =>
+    let r := t.run P infos s
+    let rest := blockRun P infos ts r.2.2
+    ((r.1, r.2.1) :: rest.1, rest.2)
 
 end FxVerif.Model.C16
